@@ -12,6 +12,8 @@ import (
 	mrand "math/rand"
 
 	"github.com/consensys/gnark-crypto/ecc"
+	bn254fr "github.com/consensys/gnark-crypto/ecc/bn254/fr"
+	bn254te "github.com/consensys/gnark-crypto/ecc/bn254/twistededwards"
 	secpecdsa "github.com/consensys/gnark-crypto/ecc/secp256k1/ecdsa"
 	secpfr "github.com/consensys/gnark-crypto/ecc/secp256k1/fr"
 	tedwards "github.com/consensys/gnark-crypto/ecc/twistededwards"
@@ -333,6 +335,18 @@ func eddsaRun(c *SigCase, res *SigRes) {
 		m = msg2
 	case "otherKey":
 		pub = k2.Public()
+	case "rLowOrder":
+		// the signer adds a point of order 8 to R and signs for the resulting hash: valid under cofactored verification
+		if c.Family != "bn254" {
+			res.Native, res.Circuit, res.Note = "inexpressible", "inexpressible", "low-order construction implemented for the BN254 companion curve"
+			return
+		}
+		forged, err := lowOrderSignatureBN254(k1.Bytes(), pad(msg), c.Seed)
+		if err != nil {
+			res.Err = "INFRA " + err.Error()
+			return
+		}
+		edited = forged
 	default:
 		res.Err = "INFRA unknown class " + c.Class
 		return
@@ -384,4 +398,62 @@ func SigReplay(args common.Args, out *common.Out) error {
 		}
 	})
 	return nil
+}
+
+// lowOrderSignatureBN254 signs msg with the private key (publicKey||scalar||randSrc, 32 bytes each) using the commitment
+// R = [n]B + T, T a point of order 8 of the BN254 companion curve.
+func lowOrderSignatureBN254(priv []byte, msg []byte, seed int64) ([]byte, error) {
+	params := bn254te.GetEdwardsCurve()
+	var A bn254te.PointAffine
+	if _, err := A.SetBytes(priv[:32]); err != nil {
+		return nil, err
+	}
+	a := new(big.Int).SetBytes(priv[32:64])
+	// a point outside the prime-order subgroup: smallest y >= 2 with a rational x, multiplied by the subgroup order
+	var T bn254te.PointAffine
+	found := false
+	for y := int64(2); y < 200 && !found; y++ {
+		var yy, num, den, x2, x, one bn254fr.Element
+		one.SetOne()
+		yy.SetInt64(y)
+		yy.Square(&yy)
+		num.Sub(&one, &yy)                        // 1 - y^2
+		den.Mul(&params.D, &yy).Sub(&params.A, &den) // a - d y^2
+		x2.Div(&num, &den)
+		if x.Sqrt(&x2) == nil {
+			continue
+		}
+		var cand bn254te.PointAffine
+		cand.X.Set(&x)
+		cand.Y.SetInt64(y)
+		if !cand.IsOnCurve() {
+			continue
+		}
+		T.ScalarMultiplication(&cand, &params.Order)
+		var four bn254te.PointAffine
+		four.ScalarMultiplication(&T, big.NewInt(4))
+		if !four.IsZero() { // order exactly 8
+			found = true
+		}
+	}
+	if !found {
+		return nil, fmt.Errorf("no point of order 8 found")
+	}
+	n := new(big.Int).Rand(mrand.New(mrand.NewSource(seed+77)), &params.Order)
+	var R bn254te.PointAffine
+	R.ScalarMultiplication(&params.Base, n)
+	R.Add(&R, &T)
+	h := gchash.MIMC_BN254.New()
+	rx, ry, ax, ay := R.X.Bytes(), R.Y.Bytes(), A.X.Bytes(), A.Y.Bytes()
+	for _, b := range [][]byte{rx[:], ry[:], ax[:], ay[:], msg} {
+		h.Write(b)
+	}
+	c := new(big.Int).SetBytes(h.Sum(nil))
+	S := new(big.Int).Mul(c, a)
+	S.Add(S, n).Mod(S, &params.Order)
+	out := make([]byte, 64)
+	rb := R.Bytes()
+	copy(out[:32], rb[:])
+	S.FillBytes(out[32:])
+	return out, nil
 }
